@@ -1356,6 +1356,9 @@ class TT():
 
             # cores = None
 
+        elif self.__is_ttm and (isinstance(index, int) or isinstance(index, slice)):
+            raise InvalidArguments(
+                'A TT matrix is indexed with as many row indices as column indices.')
         elif isinstance(index, int):
             # tensor is 1d and one element is retrived
             if len(self.__N) == 1:
